@@ -2,7 +2,7 @@
    (bool, option, unit, list, prod, sumbool, sumor); N, Z, positive, nat stay inductive. *)
 From Coq Require Import Extraction ExtrOcamlBasic.
 From FV Require Import Model.Base Model.Sink Model.Crc Model.Codes Model.Rice Model.Predict
-  Model.Component Model.Encoder Model.Flac Model.FailSink Model.Source Model.Config Model.Parser Model.Par Model.Api Proofs.OpsLen.
+  Model.Component Model.Encoder Model.Flac Model.FailSink Model.Source Model.Config Model.Parser Model.Par Model.Api Model.Ctor Proofs.OpsLen.
 Extraction Language OCaml.
 Set Extraction KeepSingleton.
 Separate Extraction
@@ -16,6 +16,12 @@ Separate Extraction
   Source.deinterleave Source.le_bytes_to_i32s Source.i32s_to_le_bytes Source.le_bytes_of Source.fb_new Source.ctx_new
   Source.fill_le_bytes Source.fill_interleaved Source.ctx_fill_le_bytes Source.ctx_fill_interleaved Source.observable
   Config.verify Config.to_doc Config.from_doc Config.default_config Generated.c_FEATURE_EXPERIMENTAL
+  Ctor.residual_new Ctor.qparams_new Ctor.constant_new Ctor.verbatim_new Ctor.fixed_new Ctor.lpc_new Ctor.header_new Ctor.frame_new
+  Ctor.streaminfo_ctor Ctor.unknown_new Ctor.written Ctor.verify_residual Ctor.verify_qparams Ctor.verify_subframe Ctor.verify_header
+  Ctor.verify_frame Ctor.verify_streaminfo Ctor.sub_block Ctor.sub_bps
+  Parser.p_residual Parser.p_subframe Parser.p_frame_header Parser.p_frame Parser.p_stream_info Parser.bits_of_ss_tag
+  Component.header_ops Component.frame_ops Component.streaminfo_ops Component.stream_bytes Component.residual_ops Component.subframe_ops
+  Component.residual_count_bits Component.subframe_count_bits Component.header_count_bits Component.frame_count_bits
   Api.streaminfo_new Api.framebuf_with_size Api.api_fill_interleaved Api.api_fill_le_bytes Api.api_frame Api.api_stream
   Parser.parse_stream Par.init Par.step Par.final Par.result_of Par.seq_result Par.read_fails Par.enabled Par.nbuf
   FailSink.expand FailSink.write_failing Component.stream_ops
